@@ -11,7 +11,7 @@ COMMON_NOTE = ("Coq 8.16.1 kernel + vm_compute; no axioms beyond the stdlib ones
 
 CLAIMED = {
     "C02": dict(
-        text='Coq theorems for every object list / hit-flag list, every skill oracle and every op sequence: a fresh gradual calculator of ALL FOUR modes (taiko included, after the fix 8d6162b) returns exactly what a plain iterator over [one-shot(1..total)] returns (counts and skill state), so value i = passed_objects(i) and #values = len. Final value = full calculation: theorem for osu!/catch; for taiko it is refuted on maps ending in non-hit objects (recorded finding F6c, theorem C02_taiko_trailing_refuted). Float attributes are compared bitwise gradual-vs-one-shot on the implementation for every prefix.',
+        text='Coq theorems for every object list / hit-flag list, every skill oracle and every op sequence: a fresh gradual calculator of ALL FOUR modes (taiko included, after the fixes 8d6162b and 0673ba4) returns exactly what a plain iterator over [one-shot(1..total)] returns (counts and skill state), so value i = passed_objects(i) and #values = len. Final value = full calculation: theorem for all four modes (for taiko since the fix 0673ba4 of the former finding F6c: passing the last hit passes the trailing non-hit objects too). Float attributes are compared bitwise gradual-vs-one-shot on the implementation for every prefix.',
         tech='Coq simulation proof (gradual machine refines list iterator, 4 modes) + model/impl correspondence + bitwise differential'),
     "C01": dict(
         text="A Gallina model cannot exhibit nondeterminism, so the proof is: (a) the inventory of ambient-effect sites (hash "
